@@ -20,10 +20,11 @@ Code it is anchored in: {', '.join(p['anchors']['files'])}
 
 Task: produce {n} DIFFERENT small source changes (separate patches, at different sites / of different kinds) to the library, each of which
  1. BREAKS the property above for some inputs / schedules / histories,
- 2. still compiles, and the library's existing test suite still passes with it (build+run: `cd {wt} && cmake -G Ninja -B _build >/dev/null && cmake --build _build >/dev/null && ctest --test-dir _build -j4 --timeout 900`; the threadpool test takes about a minute or two; if your change cannot affect a test binary you may skip re-running that binary but say so),
+ 2. still compiles, and the library's existing test suite still passes with it (build+run: `cd {wt} && cmake -G Ninja -B _build -DENABLE_LIBLCB_TESTS=1 >/dev/null && cmake --build _build >/dev/null && ctest --test-dir _build -j4 --timeout 900`; the threadpool test takes about a minute or two; if your change cannot affect a test binary you may skip re-running that binary but say so),
  3. is REALISTIC (the kind of slip a maintainer could make in a refactoring or 'optimisation': off-by-one, wrong operator or constant, dropped check, swapped arguments, wrong variable, missing cleanup on one error path, reordered statements...) and SUBTLE: it must need something specific to manifest — a particular interleaving, a fault at a particular point, a multi-step sequence of operations, an unusual/boundary input, or two cooperating sites that each look fine alone — NOT something ordinary use or the existing tests would expose at once.
 For each change write into {out}/<k>/ (k = 1..{n}):
   - patch.diff : `git -C {wt} diff` of exactly that change against the worktree's HEAD (apply-able with `git apply` at the repository root),
   - demo.c (or demo.sh + sources): a small stand-alone demonstration program that exits non-zero / prints FAIL WITH the change and exits 0 / prints PASS WITHOUT it, with the exact compile+run command in a comment at the top (compile against {wt}/include and the needed {wt}/src/*.c files; the real build defines are: -DLINUX -D__USE_GNU=1 -D_GNU_SOURCE -DHAVE_STRNCASECMP -DHAVE_SOCK_NONBLOCK -DHAVE_SOCK_CLOEXEC -DHAVE_REALLOCARRAY -DHAVE_PTHREAD_SETNAME_NP -DHAVE_PIPE2 -DHAVE_MEMRCHR -DHAVE_MEMMEM -DHAVE_EXPLICIT_BZERO -DHAVE_ACCEPT4),
+  - run_demo.sh : a script taking the repository root as $1 that compiles the demonstration against THAT root (use "$1/include", "$1/src/...") and runs it; exit status 0 = property holds (PASS), non-zero = FAIL,
   - README.md : which clause of the property it breaks, what exactly is needed for it to manifest (the specific input / sequence / interleaving), and what you ran (demo with and without the change, test suite result).
 Make each change, verify it (demo fails with it, passes without it, test suite passes), save the diff, then `git -C {wt} checkout -- .` before starting the next one. Leave the worktree clean at the end (no build directory needed afterwards: remove {wt}/_build when you are done). Keep terminal output short. Final reply: for each change one paragraph (site, what breaks, trigger) and the paths.""")
